@@ -213,6 +213,10 @@ type world struct {
 	dupLogBlock   int
 	missLogBlocks []int // nodes whose logs were never announced
 	silentDrop    bool  // an InsertChain returned nil without importing its batch
+	// crashed: this world was rebooted from a crash image. SetHead and reorg move the
+	// head markers first and delete index entries afterwards by design, so entries
+	// above the head are legal leftovers there (C39 does not state otherwise).
+	crashed bool
 }
 
 type logKey struct {
